@@ -675,6 +675,18 @@ def c02_device_apis():
     seqs = [[0xf0, 0xf7, 0], [0xf0, 1, 0xf7, 0], [0xf0, 1, 2, 0xf7] + [0] * 60, [0xf0, 0xf7], [0xf0, 1, 2, 0xf7], [0xf0, 1, 2],
             [0xf0, 0, 0, 0xf7], [0xf0, 0xf7, 0xf7], [0xf0, 1, 0xf7, 0xf8], [0x90, 1, 2, 0], [0x90, 1], [0xf8, 0], [0xf8],
             [0x90, 1, 2], [0xf0, 0x7e, 0xf7, 0, 0, 0], [0, 0xf0, 0xf7], [0xf7], [0xf1, 5], [0xf1, 5, 0], [0xfd], [0xf4]]
+    # other ports of the same backend, opened with options of their own (names a filter or routing option
+    # plausibly has; today they are absorbed by **kwargs), one left open and one closed again: what
+    # one port was configured with is no business of another port
+    others = []
+    for kw in ({'channels': [9]}, {'channel': 9, 'types': ['clock']}, {'filter': (lambda m: False), 'ignore': True, 'queue_size': 1}):
+        try:
+            o = backend.Input('Fake Port 1', **kw)
+            others.append(o)
+        except Exception:
+            pass
+    if others:
+        others.pop().close()
     for api in backend.get_api_names():
         for cb in (False, True):
             got_cb = []
@@ -1366,18 +1378,21 @@ def c16_where_save_writes(ctx=None):
 
 # ---------------------------------------------------------------- wiring
 
-def run(ctx, pid):
-    """Called by the cli after the check of `pid`: every function named c<NN>_* of this module."""
+def run(ctx, pid, module=None):
+    """Called by the cli after the check of `pid`: every function named c<NN>_* of this module (or of
+    `module`: extra12)."""
     pre = pid.lower() + '_'
-    if pid in ('C03', 'C04', 'C05', 'C06'):
+    ns = vars(module) if module is not None else globals()
+    tag = 'x12' if module is not None else 'x11'
+    if module is None and pid in ('C03', 'C04', 'C05', 'C06', 'C10', 'C17', 'C18'):
         # two threads at statement granularity (the other checks call these themselves)
         from .. import conc
         conc.run_scenarios(ctx, pid, 2 if ctx.tier == 'thorough' else 1)
         if pid in conc.FIRST_USE:
             conc.first_use(ctx, pid, 120 if ctx.tier == 'thorough' else 40)
-    for name in sorted(globals()):
-        if name.startswith(pre) and callable(globals()[name]):
-            fn = globals()[name]
+    for name in sorted(ns):
+        if name.startswith(pre) and callable(ns[name]):
+            fn = ns[name]
             try:
                 found = fn(ctx) if fn.__code__.co_argcount else fn()
             except core.Machinery:
@@ -1387,9 +1402,14 @@ def run(ctx, pid):
             ctx.replayed += 1
             ctx.count('extra11_subchecks', 1)
             for key, detail in found:
-                ctx.violation('x11/%s/%s' % (name[4:], key), {'kind': 'extra11', 'name': name}, detail)
+                ctx.violation('%s/%s/%s' % (tag, name[4:], key), {'kind': 'extra11', 'name': name, 'module': tag}, detail)
 
 
 def replay(case):
-    found = globals()[case['name']]()
+    if case.get('module') == 'x12':
+        from . import extra12
+        fn = getattr(extra12, case['name'])
+    else:
+        fn = globals()[case['name']]
+    found = fn(None) if fn.__code__.co_argcount else fn()
     return found[0][1] if found else None
